@@ -105,6 +105,35 @@ type Pipe chan int
 type PS1 *S1
 type Arr4 [4]int32
 
+// ---- review round 5: shapes the first catalogue could not express
+
+// Sealed has an unexported method: only types of this package can implement it.
+type Sealed interface {
+	M() int
+	m()
+}
+
+// Impl implements Sealed (exported and unexported method); HalfSealed only has the exported one.
+type Impl struct{ V int }
+
+func (i Impl) M() int { return i.V }
+func (i Impl) m()     {}
+
+type HalfSealed struct{ V int }
+
+func (h HalfSealed) M() int { return h.V }
+
+// ST is a named slice of an untagged struct; the catalogue also holds the unnamed slice of the *tagged* struct.
+type ST []struct{ A int }
+
+// Node is self-referential and pointer-shaped.
+type Node struct{ Next *Node }
+
+type E0b struct{}
+
+// Svc carries the method corpus (see corpus.go).
+type Svc struct{ N int }
+
 // Sink defeats dead-code elimination in the corpus functions.
 var Sink int
 
